@@ -316,7 +316,14 @@ class JointModel(LogisticModel):
         -------
         None
         """
-        df = dataset.to_pandas().reset_index("TIME").groupby("ID").min()
+        df = (
+            dataset.to_pandas()
+            .reset_index("TIME")
+            .groupby("ID")
+            .min()
+            # `groupby` sorts by ID: back to the order of individuals of the dataset (values are used positionally)
+            .loc[dataset.indices]
+        )
         # Initialise individual parameters if they are not already initialised
         if not state.are_variables_set(("xi", "tau")):
             df_ind = df["TIME"].to_frame(name="tau")
@@ -358,7 +365,14 @@ class JointModel(LogisticModel):
         log_rho_mean = [0] * self.nb_events
         n_log_nu_mean = [0] * self.nb_events
 
-        df_ind = dataset.to_pandas().reset_index("TIME").groupby("ID").min()
+        df_ind = (
+            dataset.to_pandas()
+            .reset_index("TIME")
+            .groupby("ID")
+            .min()
+            # `groupby` sorts by ID: back to the order of individuals of the dataset (values are used positionally)
+            .loc[dataset.indices]
+        )
         approx_tau = torch.tensor(df_ind["TIME"].values) - self.init_tolerance
 
         for i in range(self.nb_events):
